@@ -518,8 +518,13 @@ func c02Run(c *vlib.Ctx, idx int, sc c02Scenario) {
 				fail("DST-REPORTED", fmt.Sprintf("destination state %s reported in %d published events although %s failed", dst, obs.DstEvents, sc.Transition))
 			}
 		}
-	} else if expect {
+	} else if expect && !either {
 		follow = []pb.ControlEnvironmentRequest_Optype{pb.ControlEnvironmentRequest_START_ACTIVITY}
+	}
+	if either {
+		// a refused call made the scheduler resubscribe: a follow-up sent into the reconnection window
+		// fails for that reason, which says nothing about the property
+		follow = nil
 	}
 	// failures confined to non-critical tasks never make a (later) transition fail
 	for _, op := range follow {
